@@ -363,3 +363,21 @@ pub fn explore(choices: &[u8], opts: SchedOpts, threads: Vec<Box<dyn FnOnce() + 
         choices_used: st.pos.min(st.choices.len()),
     }
 }
+
+/// All explicit schedules with at most two switches (for bounded-exhaustive sub-lanes).
+pub fn schedules_le2(nthreads: usize, steps: u64) -> Vec<Vec<(u64, usize)>> {
+    let mut out: Vec<Vec<(u64, usize)>> = vec![vec![]];
+    for s1 in 0..=steps {
+        for t1 in 0..nthreads {
+            out.push(vec![(s1, t1)]);
+            for s2 in (s1 + 1)..=steps {
+                for t2 in 0..nthreads {
+                    if t2 != t1 {
+                        out.push(vec![(s1, t1), (s2, t2)]);
+                    }
+                }
+            }
+        }
+    }
+    out
+}
